@@ -55,9 +55,18 @@ package trie
 //@     && forall(t, 0, nI(st), 0 <= from_of(st, t) && from_of(st, t) + size_of(st, t) <= 64*len(INW(st)), at)
 //@     && forall(t, 0, nI(st), t < nB(st) ==> !is_short(st, t), at)
 //@     && forall(t, 0, nI(st), is_short(st, t) ==> nS(st) >= 1, at)
+
+// shortbm(st, t): the 17-bit logical label bitmap of short inner node t, i.e. by definition the table entry getNode
+// loads into qr.bm (naming clause of getNode; the bit extraction itself is covered by its panic#/assert obligations)
+//@ spec shortbm(st *SlimTrie, t int) uint64
+
+// tree clauses: leaf ordinals, breadth-first child order, child bound of short nodes, empty label leads to a leaf
+//@ predicate wf_tree(st *SlimTrie) = true
 //@     && forall(id, 0, nN(st), bitat(NTW(st), id) == 0 ==> id - rank1(NTW(st), id) < nN(st) - nI(st), at)
 //@     && forall(id, 0, nN(st), bitat(NTW(st), id) == 1 ==> rank1(INW(st), from_of(st, rank1(NTW(st), id))) >= id, at)
-//@     && forall(t, 0, nI(st), is_short(st, t) ==> rank1(INW(st), from_of(st, t)) + popcnt64(u64(st.inner.ShortTable[int(scode(st, t))])) < nN(st), at)
+//@     && forall(t, 0, nI(st), is_short(st, t) ==> rank1(INW(st), from_of(st, t)) + popcnt64(shortbm(st, t)) < nN(st), at)
+//@     && forall(t, 0, nI(st), ite(is_short(st, t), bitof(shortbm(st, t), 0), bitat(INW(st), from_of(st, t))) == 1
+//@            ==> bitat(NTW(st), rank1(INW(st), from_of(st, t)) + 1) == 0, at)
 
 //@ define LPP(st *SlimTrie) = st.inner.LeafPrefixes.PresenceBM.Words
 //@ define nL(st *SlimTrie) = nN(st) - nI(st)
@@ -81,7 +90,9 @@ package trie
 //@          && (st.inner.InnerPrefixes.PositionBM != nil ==> wf_pos(st.inner.InnerPrefixes.PositionBM, int(st.inner.InnerPrefixes.EltCnt), st.inner.InnerPrefixes.Bytes)
 //@                && len(st.inner.InnerPrefixes.Bytes) <= 100000000
 //@                && forall(k, 0, int(st.inner.InnerPrefixes.EltCnt), bitstr_len(st.inner.InnerPrefixes.Bytes[
-//@                       select1(st.inner.InnerPrefixes.PositionBM.Words, k) : select1(st.inner.InnerPrefixes.PositionBM.Words, k+1)]) % 4 == 0, at)))
+//@                       select1(st.inner.InnerPrefixes.PositionBM.Words, k) : select1(st.inner.InnerPrefixes.PositionBM.Words, k+1)]) % 4 == 0, at)
+//@                && forall(k, 0, int(st.inner.InnerPrefixes.EltCnt), bitstr_len(st.inner.InnerPrefixes.Bytes[
+//@                       select1(st.inner.InnerPrefixes.PositionBM.Words, k) : select1(st.inner.InnerPrefixes.PositionBM.Words, k+1)]) >= 0, at)))
 
 // ---------------------------------------------------------------------------
 // query primitives
@@ -114,7 +125,7 @@ package trie
 
 //@ func (*SlimTrie).getLeafPrefix
 //@   property C01 C03 C10
-//@   requires wf_core(st) && wf_lprefix(st) && qr != nil
+//@   requires wf_core(st) && wf_tree(st) && wf_lprefix(st) && qr != nil
 //@   requires 0 <= nodeid && int(nodeid) < nN(st) && bitat(NTW(st), nodeid) == 0
 //@   modifies qr.ithLeaf, qr.hasLeafPrefix, qr.leafPrefix
 //@   use rank1_range(NTW(st), int(nodeid))
@@ -146,12 +157,13 @@ package trie
 
 //@ func (*SlimTrie).getNode
 //@   property C01 C03 C10
-//@   requires wf_core(st) && wf_iprefix(st) && wf_lprefix(st) && qr != nil
+//@   requires wf_core(st) && wf_tree(st) && wf_iprefix(st) && wf_lprefix(st) && qr != nil
 //@   requires 0 <= nodeId && int(nodeId) < nN(st)
 //@   modifies *qr
 //@   split nS(st) 0 10
 //@   use rank1_le_ones(NTW(st), int(nodeId))
 //@   use rank1_range(NTW(st), int(nodeId))
+//@   use at(nodeId)
 //@   after Rank64#1 use at(result0)
 //@   after Rank64#1 use rank1_range(SBW(st), int(result0))
 //@   after Rank64#1 use rank1_range(st.inner.InnerPrefixes.PresenceBM.Words, int(result0))
@@ -164,7 +176,13 @@ package trie
 //@   at "qr.to = qr.from + innerSize" assert int(qr.to) <= 64*len(INW(st))
 //@   at "bm = (w >> uint32(j)) & vars.ShortMask" assert (bm & ^mask(nS(st))) == 0
 //@   at "bm = (w >> uint32(j)) | (w2" assert (bm & ^mask(nS(st))) == 0
+//@   before "w2 := ns.Inners.Words[qr.to>>6]" use straddle(int(qr.from), nS(st), len(INW(st)))
 //@   before "qr.bm = uint64(ns.ShortTable[bm])" use u2i_le_mask(bm, nS(st))
+//@   at "qr.innerPrefixLen = bitstr.Len(qr.innerPrefix)" use bitstr_len_cong(qr.innerPrefix, st.inner.InnerPrefixes.Bytes[
+//@       select1(st.inner.InnerPrefixes.PositionBM.Words, rank1(st.inner.InnerPrefixes.PresenceBM.Words, qr.ithInner)) :
+//@       select1(st.inner.InnerPrefixes.PositionBM.Words, rank1(st.inner.InnerPrefixes.PresenceBM.Words, qr.ithInner) + 1)])
+//@   at "qr.innerPrefixLen = bitstr.Len(qr.innerPrefix)" assert qr.innerPrefixLen%4 == 0
+//@   at "qr.innerPrefixLen = bitstr.Len(qr.innerPrefix)" assert 0 <= qr.innerPrefixLen && qr.innerPrefixLen <= 800000000
 //@   after Rank128#1 use at(result0, result0 + 1)
 //@   ensures int(qr.isInner) == bitat(NTW(st), nodeId) && int(qr.ithInner) == rank1(NTW(st), nodeId)
 //@   ensures qr.key == old(qr.key) && qr.keyBitLen == old(qr.keyBitLen)
@@ -180,8 +198,7 @@ package trie
 //@       int(qr.innerPrefixLen) == decstep(st.inner.InnerPrefixes.Bytes, 2*rank1(st.inner.InnerPrefixes.PresenceBM.Words, qr.ithInner))
 //@   ensures qr.hasInnerPrefix ==> len(qr.innerPrefix) >= 1 && int(qr.innerPrefixLen) == bitstr_len(qr.innerPrefix)
 //@   ensures qr.hasInnerPrefix ==> qr.innerPrefixLen%4 == 0 && 0 <= qr.innerPrefixLen && qr.innerPrefixLen <= 800000000
-//@   ensures qr.isInner == 1 && is_short(st, int(qr.ithInner)) ==> rank1(INW(st), qr.from) + popcnt64(qr.bm) < nN(st)
-//@   ensures qr.isInner == 1 ==> rank1(INW(st), qr.from) >= int(nodeId)
+//@   defines qr.isInner == 1 && is_short(st, int(qr.ithInner)) ==> qr.bm == shortbm(st, int(qr.ithInner))
 //@   ensures qr.hasInnerPrefix ==> sameslice(qr.innerPrefix, st.inner.InnerPrefixes.Bytes[
 //@       select1(st.inner.InnerPrefixes.PositionBM.Words, rank1(st.inner.InnerPrefixes.PresenceBM.Words, qr.ithInner)) :
 //@       select1(st.inner.InnerPrefixes.PositionBM.Words, rank1(st.inner.InnerPrefixes.PresenceBM.Words, qr.ithInner) + 1)])
@@ -205,7 +222,7 @@ package trie
 
 //@ func (*SlimTrie).getLeaf
 //@   property C01 C10
-//@   requires wf_core(st) && wf_leaves(st) && st.encoder != nil
+//@   requires wf_core(st) && wf_tree(st) && wf_leaves(st) && st.encoder != nil
 //@   requires 0 <= nodeid && int(nodeid) < nN(st) && bitat(NTW(st), nodeid) == 0
 //@   use rank1_range(NTW(st), int(nodeid))
 //@   use at(nodeid)
@@ -221,14 +238,24 @@ package trie
 //@   requires wf_leaves(st) && st.inner != nil && 0 <= ith && int(ith) < nL(st)
 //@   ensures st.inner.Leaves == nil ==> len(result) == 0
 
-//@ predicate wf_query(st *SlimTrie) = st.inner != nil && (st.inner.NodeTypeBM != nil ==> wf_core(st) && wf_iprefix(st) && wf_lprefix(st))
+//@ predicate wf_query(st *SlimTrie) = st.inner != nil && (st.inner.NodeTypeBM != nil ==> wf_core(st) && wf_tree(st) && wf_iprefix(st) && wf_lprefix(st))
+
+//@ spec getid(st *SlimTrie, key string) int32
 
 //@ func (*SlimTrie).GetID
-//@   property C01 C03 C10
+//@   property C01 C03 C10 C14
+//@   opaque wf_iprefix wf_lprefix
 //@   requires wf_query(st) && len(key) <= 100000000
-//@   loop 1 invariant 0 <= eqID && int(eqID) < nN(st) && 0 <= i && i <= l + 4 && i%4 == 0
+//@   loop 1 invariant 0 <= eqID && int(eqID) < nN(st)
+//@   loop 1 invariant 0 <= i && i <= l + 4
+//@   loop 1 invariant i%4 == 0
 //@   loop 1 invariant qr != nil && qr.key == key && qr.keyBitLen == l && int(l) == 8*len(key)
 //@   loop 1 decreases nN(st) - int(eqID)
+//@   after getNode#1 use at(qr.ithInner, eqID)
+//@   after getNode#1 assert qr.isInner == 1 ==> rank1(INW(st), qr.from) >= int(eqID)
+//@   after getNode#1 assert qr.isInner == 1 && is_short(st, int(qr.ithInner)) ==> rank1(INW(st), qr.from) + popcnt64(qr.bm) < nN(st)
+//@   after getNode#1 assert qr.isInner == 1 && ite(is_short(st, int(qr.ithInner)), bitof(qr.bm, 0), bitat(INW(st), qr.from)) == 1 ==> bitat(NTW(st), rank1(INW(st), qr.from) + 1) == 0
+//@   after getNode#1 assert qr.isInner == 0 ==> bitat(NTW(st), eqID) == 0
 //@   after getLeftChildID#1 use rank1_le_ones(INW(st), int(qr.from) + labelidx(qr.key, int(qr.keyBitLen), int(qr.wordSize), int(i)))
 //@   after getLeftChildID#1 use rank1_mono(INW(st), int(qr.from), int(qr.from) + labelidx(qr.key, int(qr.keyBitLen), int(qr.wordSize), int(i)))
 //@   after getLeftChildID#1 use popcnt_bit_le(qr.bm, labelidx(qr.key, int(qr.keyBitLen), int(qr.wordSize), int(i)))
@@ -236,5 +263,80 @@ package trie
 //@   after getLeftChildID#1 assert int(qr.to - qr.from) != nS(st) ==> int(qr.from) + labelidx(qr.key, int(qr.keyBitLen), int(qr.wordSize), int(i)) < int(qr.to)
 //@   after getLeftChildID#1 assert result1 == 1 ==> int(result0) + 1 < nN(st)
 //@   after getLeftChildID#1 assert int(result0) >= int(eqID)
+//@   after getLeftChildID#1 assert i == l ==> labelidx(qr.key, int(qr.keyBitLen), int(qr.wordSize), int(i)) == 0
+//@   after getLeftChildID#1 assert (int(qr.to - qr.from) == nS(st)) == is_short(st, int(qr.ithInner))
+//@   after getLeftChildID#1 assert i == l ==> int(result0) == rank1(INW(st), qr.from)
+//@   after getLeftChildID#1 assert i == l ==> i >= qr.keyBitLen
+//@   after getLeftChildID#1 assert result1 == 1 && i == l ==> ite(is_short(st, int(qr.ithInner)), bitof(qr.bm, 0), bitat(INW(st), qr.from)) == 1
+//@   after getLeftChildID#1 assert result1 == 1 && i == l ==> bitat(NTW(st), rank1(INW(st), qr.from) + 1) == 0
+//@   after getLeftChildID#1 use bitat_cong(NTW(st), int(result0) + 1, rank1(INW(st), qr.from) + 1)
+//@   after getLeftChildID#1 assert result1 == 1 && i == l ==> bitat(NTW(st), int(result0) + 1) == 0
+//@   at "eqID = lchID + 1" use bitat_cong(NTW(st), int(eqID), int(lchID) + 1)
+//@   at "eqID = lchID + 1" assert i == l ==> bitat(NTW(st), eqID) == 0
+//@   before "if st.inner.LeafPrefixes != nil {" assert bitat(NTW(st), eqID) == 0 && 0 <= eqID && int(eqID) < nN(st)
 //@   ensures st.inner.NodeTypeBM == nil ==> result == -1
-//@   ensures result == -1 || (0 <= result && int(result) < nN(st))
+//@   ensures result == -1 || (0 <= result && int(result) < nN(st) && bitat(NTW(st), result) == 0)
+//@   defines result == getid(st, key)
+
+//@ func (*SlimTrie).Get
+//@   property C01 C03 C10 C14
+//@   requires wf_query(st) && len(key) <= 100000000 && (st.inner.NodeTypeBM != nil ==> wf_leaves(st) && st.encoder != nil)
+//@   ensures result1 == (getid(st, key) != -1)
+//@   ensures !result1 ==> result0 == nil
+
+//@ func (*SlimTrie).GetI8
+//@   property C14 C10
+//@   after GetID#1 use at(result)
+//@   after GetID#1 use rank1_range(NTW(st), int(result))
+//@   requires wf_query(st) && len(key) <= 100000000
+//@   requires st.inner.NodeTypeBM != nil ==> st.inner.Leaves != nil && len(st.inner.Leaves.Bytes) >= nL(st)
+//@   ensures result1 == (getid(st, key) != -1)
+//@   ensures !result1 ==> result0 == 0
+//@   ensures result1 ==> result0 == s8(st.inner.Leaves.Bytes[leaf_ord(st, int(getid(st, key)))])
+
+//@ func (*SlimTrie).GetI16
+//@   property C14 C10
+//@   after GetID#1 use at(result)
+//@   after GetID#1 use rank1_range(NTW(st), int(result))
+//@   requires wf_query(st) && len(key) <= 100000000
+//@   requires st.inner.NodeTypeBM != nil ==> st.inner.Leaves != nil && len(st.inner.Leaves.Bytes) >= 2*nL(st) && len(st.inner.Leaves.Bytes) <= 1000000000
+//@   ensures result1 == (getid(st, key) != -1)
+//@   ensures !result1 ==> result0 == 0
+//@   ensures result1 ==> result0 == s16(le16(st.inner.Leaves.Bytes, 2*leaf_ord(st, int(getid(st, key)))))
+
+//@ func (*SlimTrie).GetI32
+//@   property C14 C10
+//@   after GetID#1 use at(result)
+//@   after GetID#1 use rank1_range(NTW(st), int(result))
+//@   requires wf_query(st) && len(key) <= 100000000
+//@   requires st.inner.NodeTypeBM != nil ==> st.inner.Leaves != nil && len(st.inner.Leaves.Bytes) >= 4*nL(st) && len(st.inner.Leaves.Bytes) <= 1000000000
+//@   ensures result1 == (getid(st, key) != -1)
+//@   ensures !result1 ==> result0 == 0
+//@   ensures result1 ==> result0 == s32(le32(st.inner.Leaves.Bytes, 4*leaf_ord(st, int(getid(st, key)))))
+
+//@ func (*SlimTrie).GetI64
+//@   property C14 C10
+//@   after GetID#1 use at(result)
+//@   after GetID#1 use rank1_range(NTW(st), int(result))
+//@   requires wf_query(st) && len(key) <= 100000000
+//@   requires st.inner.NodeTypeBM != nil ==> st.inner.Leaves != nil && len(st.inner.Leaves.Bytes) >= 8*nL(st) && len(st.inner.Leaves.Bytes) <= 1000000000
+//@   ensures result1 == (getid(st, key) != -1)
+//@   ensures !result1 ==> result0 == 0
+//@   ensures result1 ==> result0 == s64(le64(st.inner.Leaves.Bytes, 8*leaf_ord(st, int(getid(st, key)))))
+
+// Ghost lemma (C14): the typed getters and Get agree on found-ness for every query string.
+
+//@ func lemmaTypedGettersAgreeOnFound
+//@   property C14
+//@   requires wf_query(st) && len(key) <= 100000000 && (st.inner.NodeTypeBM != nil ==> wf_leaves(st) && st.encoder != nil)
+//@   requires st.inner.NodeTypeBM != nil ==> st.inner.Leaves != nil && len(st.inner.Leaves.Bytes) >= 8*nL(st) && len(st.inner.Leaves.Bytes) <= 1000000000
+//@   ensures result0 == result1 && result1 == result2 && result2 == result3 && result3 == result4
+
+func lemmaTypedGettersAgreeOnFound(st *SlimTrie, key string) (bool, bool, bool, bool, bool) {
+	_, f0 := st.Get(key)
+	_, f1 := st.GetI8(key)
+	_, f2 := st.GetI16(key)
+	_, f3 := st.GetI32(key)
+	_, f4 := st.GetI64(key)
+	return f0, f1, f2, f3, f4
+}
